@@ -271,7 +271,8 @@ diff_sds(int32 sd1_id, int32 sd2_id, int32 ref1, int32 ref2, diff_opt_t *opt)
             /* if the given max_err_cnt is set (i.e. not its default MAX_DIFF),
                use it, otherwise, use the total number of elements in the dataset */
             max_err_cnt = (opt->max_err_cnt != MAX_DIFF) ? opt->max_err_cnt : nelms;
-            nfound      = array_diff(buf1, buf2, nelms, sds1_name, sds2_name, rank1, dimsizes1, dtype1,
+            /* (the buffers hold native values whatever the storage order: compare by the bare number type) */
+            nfound      = array_diff(buf1, buf2, nelms, sds1_name, sds2_name, rank1, dimsizes1, numtype,
                                      opt->err_limit, opt->err_rel, max_err_cnt, opt->statistics, fill1, fill2);
         }
 
@@ -348,7 +349,7 @@ diff_sds(int32 sd1_id, int32 sd2_id, int32 ref1, int32 ref2, diff_opt_t *opt)
                    found in each hyperslab and pass the position at the beginning for printing
                  */
                 nfound =
-                    array_diff(sm_buf1, sm_buf2, hs_nelmts, sds1_name, sds2_name, rank1, dimsizes1, dtype1,
+                    array_diff(sm_buf1, sm_buf2, hs_nelmts, sds1_name, sds2_name, rank1, dimsizes1, numtype,
                                opt->err_limit, opt->err_rel, max_err_cnt, opt->statistics, fill1, fill2);
 
                 /* calculate the next hyperslab offset */
